@@ -206,14 +206,14 @@ def run(tier):
     log("[C07] MC_DbTable: %d distinct states, %d transitions, depth %d, %.1fs" % (res.distinct, res.generated, res.depth, res.wall))
     # 2+3. exploration of the real object, judged by TLC
     if tier == "quick":
-        b = dict(types=["x", "z", "sel"], maxcols=3, maxuid=4, maxnech=2, max_transitions=60000, walks=300,
-                 walk_depth=25, init_nech=[1, 2], grids=[0, 1])
+        b = dict(types=["x", "z", "sel"], maxcols=3, maxuid=5, maxnech=2, max_transitions=60000, walks=2500,
+                 walk_depth=30, init_nech=[1, 2], grids=[0, 1])
         ncat = explore_and_judge(ck, b, "main")
     else:
-        b = dict(types=["x", "z", "sel"], maxcols=3, maxuid=5, maxnech=2, max_transitions=600000, walks=3000,
+        b = dict(types=["x", "z", "sel"], maxcols=3, maxuid=6, maxnech=2, max_transitions=600000, walks=20000,
                  walk_depth=40, init_nech=[1, 2], grids=[0, 1])
         ncat = explore_and_judge(ck, b, "main")
-        b2 = dict(types=["x", "z", "f", "v"], maxcols=4, maxuid=6, maxnech=1, max_transitions=300000, walks=2000,
+        b2 = dict(types=["x", "z", "f", "v"], maxcols=4, maxuid=7, maxnech=1, max_transitions=300000, walks=20000,
                   walk_depth=40, init_nech=[1], grids=[0])
         ncat += explore_and_judge(ck, b2, "wide")
     validate_recorded_traces(ck, tier)
